@@ -393,6 +393,10 @@ class VerifyAttrs(object):
                         attrs["value"] = True  # void *
 #                    else:
 #                        attrs["value"] = None # void **  XXX intent(out)?
+            elif arg.array:
+                # 'int x[10]': an array parameter is a pointer in C,
+                # the bind(C) dummy must not have the VALUE attribute.
+                pass
             else:
                 attrs["value"] = True
 
